@@ -24,7 +24,7 @@ var (
 	mu   sync.Mutex
 	byCC = map[any]*Counters{}
 	// Gate, when set, is called on the loop goroutine right after a message was dequeued
-	// (before it is processed): gate(cc, goroutine id).
+	// (before it is processed): gate(message, goroutine id).
 	Gate atomic.Pointer[func(cc any, gid int64)]
 )
 
@@ -47,17 +47,15 @@ func Forget(cc any) {
 }
 
 func hook(ev string, obj any) {
-	c := For(obj)
 	switch ev {
 	case "enqueue":
-		c.Enq.Add(1)
-	case "dequeued":
-		c.Deq.Add(1)
+		For(obj).Enq.Add(1)
+	case "dequeued": // obj is the dequeued *pool.Message
 		if g := Gate.Load(); g != nil {
 			(*g)(obj, GID())
 		}
 	case "processed":
-		c.Proc.Add(1)
+		For(obj).Proc.Add(1)
 	}
 }
 
